@@ -1822,3 +1822,87 @@ Proof.
   fold s1 in L. rewrite Htt in L. apply L; auto; try lia.
   unfold e1, iv_ms. rewrite Hreg, Haf, Htk. unfold clamp, clampd in *. lia.
 Qed.
+
+(* boolean form of fuel_ok, for examples evaluated with vm_compute *)
+Definition fuel_okb (outs : list out) : bool :=
+  forallb (fun o => match o with OOutOfFuel => false | _ => true end) outs.
+Lemma fuel_okb_ok outs : fuel_okb outs = true -> fuel_ok outs.
+Proof.
+  unfold fuel_okb, fuel_ok. intros H Hin. rewrite forallb_forall in H. specialize (H _ Hin). discriminate.
+Qed.
+
+(* ------------------------------------------------------------------ schedulers whose tasks have no reaction of their own
+   (the actor context registers plain callbacks): time passing creates no instance *)
+
+Definition noreact (s : sched) : Prop := forall i, t_react (inst s i) = [].
+
+Lemma fire_noreact s i e : sinv s -> noreact s -> (i < nins s)%nat -> t_pend (inst s i) = Some e ->
+  fst (fire s i e) = after_next s i e.
+Proof.
+  intros I NR Hi Hp. rewrite (fire_eq s i e I Hi Hp). cbv zeta.
+  destruct (t_kill (inst s i)); [reflexivity|]. rewrite NR. reflexivity.
+Qed.
+
+Lemma noreact_evolves s s' : noreact s -> nins s' = nins s ->
+  (forall j, (j < nins s)%nat -> evolves (inst s j) (inst s' j)) -> noreact s'.
+Proof.
+  intros NR Hn Ev i. destruct (Nat.lt_ge_cases i (nins s)) as [Hlt|Hge].
+  - destruct (Ev i Hlt) as [(_ & _ & _ & _ & _ & Hr & _) _ _]. rewrite <- Hr. apply NR.
+  - rewrite inst_out by lia. reflexivity.
+Qed.
+
+(* what any operation does to the instances that exist, in every case (also when Advance runs out of fuel) *)
+Record grows (s s' : sched) : Prop := {
+  gr_inv : sinv s';
+  gr_n : (nins s <= nins s')%nat;
+  gr_tick : s_tick s' = s_tick s;
+  gr_now : s_now s <= s_now s';
+  gr_ev : forall j, (j < nins s)%nat -> evolves (inst s j) (inst s' j)
+}.
+
+Lemma grows_of_trans cl s s' evs : trans cl s s' evs -> grows s s'.
+Proof. intros [I N T W S E C X O]. split; auto. Qed.
+
+Lemma grows_trans a b c : grows a b -> grows b c -> grows a c.
+Proof.
+  intros [I1 N1 T1 W1 E1] [I2 N2 T2 W2 E2]. split; auto; try lia; try congruence.
+  intros j Hj. eapply evolves_trans; [apply E1; auto | apply E2; lia].
+Qed.
+
+Lemma advance_noreact s T : sinv s -> noreact s ->
+  grows s (fst (step s (Advance T))) /\ nins (fst (step s (Advance T))) = nins s /\ noreact (fst (step s (Advance T))).
+Proof.
+  intros I NR. cbn [step]. destruct (Z.leb_spec T (s_now s)).
+  - cbn [fst]. splits; auto. apply (grows_of_trans _ _ _ _ (trans_refl s I)).
+  - pose proof (iter_pos_inv
+                  (fun st : sched * list event => let '(s1, acc) := st in trans false s s1 acc /\ nins s1 = nins s /\ noreact s1)
+                  (fun st : sched * list event => let '(s1, acc) := st in trans false s s1 acc /\ nins s1 = nins s /\ noreact s1)
+                  (adv_step T)) as Hit.
+    assert (Hstep : forall st, (let '(s1, acc) := st in trans false s s1 acc /\ nins s1 = nins s /\ noreact s1) ->
+               match adv_step T st with
+               | inl s' => (let '(s1, acc) := s' in trans false s s1 acc /\ nins s1 = nins s /\ noreact s1)
+               | inr r => (let '(s1, acc) := r in trans false s s1 acc /\ nins s1 = nins s /\ noreact s1)
+               end).
+    { intros [s1 acc] (Tr & Hn & NR1). pose proof (adv_step_trans s T (s1, acc) Tr) as H0.
+      unfold adv_step in *. destruct (s_stopped s1); [splits; auto; apply H0|].
+      destruct (earliest (tick_ms s1) T (s_insts s1) 0 None) as [[i e]|] eqn:He; [|splits; auto; apply H0].
+      apply earliest_spec in He. destruct He as [He|(Hr & Hp & Hd)]; [discriminate|].
+      rewrite Nat.sub_0_r in Hp. fold (inst s1 i) in Hp.
+      assert (Hi : (i < nins s1)%nat) by (unfold nins; lia).
+      pose proof (fire_noreact s1 i e (tr_inv _ _ _ _ Tr) NR1 Hi Hp) as FN.
+      pose proof (trans_fire s1 i e (tr_inv _ _ _ _ Tr) Hi Hp) as Tf.
+      destruct (fire s1 i e) as [s' evs]. cbn [fst snd] in *. subst s'.
+      assert (Hn' : nins (after_next s1 i e) = nins s1) by (unfold after_next; rewrite nins_set_inst; reflexivity).
+      splits; auto; [congruence|].
+      eapply noreact_evolves; [exact NR1 | exact Hn' | exact (tr_ev _ _ _ _ Tf)]. }
+    specialize (Hit Hstep FUEL (s, []) (conj (trans_refl s I) (conj eq_refl NR))).
+    destruct (iter_pos FUEL (adv_step T) (s, [])) as [[s1 a1]|[s1 a1]]; cbn [fst snd] in *;
+      destruct Hit as (Tr & Hn & NR1).
+    + splits; auto. exact (grows_of_trans _ _ _ _ Tr).
+    + assert (Hnow : s_now s1 <= Z.max (s_now s1) T) by lia.
+      pose proof (trans_trans _ _ _ _ _ _ _ Tr (trans_with_now s1 _ (tr_inv _ _ _ _ Tr) Hnow)) as T2.
+      splits.
+      * exact (grows_of_trans _ _ _ _ T2).
+      * exact Hn.
+      * intros i. apply NR1.
+Qed.
